@@ -253,6 +253,33 @@ def unescape_single_pass(model: Model, run: Run) -> None:
                                  f"escapes are decoded by successive str.replace calls: the {bad[1]!r} produced for {bad[0]!r} can combine with the following text into {bad[2]!r} "
                                  "and be decoded a second time (e.g. an escaped backslash followed by the digits of another escape)", model.loc(SCHEMA, chains[0])))
         return
+    if not subs:
+        # a hand-written scanner (`idx = value.find("\\", pos)` ... pieces appended to a list): single pass by construction as long as
+        # the text being searched is the ORIGINAL text - nothing inside the loop assigns to it (decoded output fed back into the scan
+        # is what decodes twice).  Whether the scan ends is C18's question (E2).
+        loops_ = [x for x in walk_no_nested(fi.node) if isinstance(x, (ast.While, ast.For))]
+        scanned = {c.func.value.id for l_ in loops_ for c in ast.walk(l_) if isinstance(c, ast.Call) and isinstance(c.func, ast.Attribute) and
+                   c.func.attr in ("find", "index", "startswith") and isinstance(c.func.value, ast.Name)}
+        scanned |= {x.value.id for l_ in loops_ for x in ast.walk(l_) if isinstance(x, ast.Subscript) and isinstance(x.value, ast.Name) and isinstance(x.ctx, ast.Load)}
+        if not loops_ or not scanned:
+            raise AnalysisError(f"{fi.qualname}: no regex substitution, no str.replace and no scanning loop: the un-escaper is not found")
+        fed_back = sorted({t_.id for l_ in loops_ for x in ast.walk(l_) if isinstance(x, (ast.Assign, ast.AugAssign, ast.AnnAssign))
+                           for t_ in (x.targets if isinstance(x, ast.Assign) else [x.target]) if isinstance(t_, ast.Name) and t_.id in scanned and
+                           not (isinstance(x, ast.Assign) and isinstance(x.value, ast.Name))})
+        fed_back = [v for v in fed_back if any(isinstance(x, (ast.Assign, ast.AugAssign)) and any(isinstance(t_, ast.Name) and t_.id == v for t_ in (x.targets if isinstance(x, ast.Assign) else [x.target]))
+                                               and not isinstance(getattr(x, "value", None), (ast.Constant,)) and
+                                               any(isinstance(y, (ast.BinOp, ast.JoinedStr, ast.Call)) for y in ast.walk(x.value))
+                                               for l_ in loops_ for x in ast.walk(l_))]
+        # positions (ints) are scanned-by-subscript false friends: only names that are searched with find/index/startswith or sliced count as text
+        texts = {c.func.value.id for l_ in loops_ for c in ast.walk(l_) if isinstance(c, ast.Call) and isinstance(c.func, ast.Attribute) and
+                 c.func.attr in ("find", "index", "startswith") and isinstance(c.func.value, ast.Name)}
+        fed_back = [v for v in fed_back if v in texts]
+        ok = not fed_back
+        run.ob("U1-unescape-single-pass", ok, {"scanner": "hand-written loop", "searched": sorted(texts), "reassigned_in_loop": fed_back})
+        if not ok:
+            run.fail(Finding("U1-unescape-single-pass", fi.qualname, f"scan text reassigned: {fed_back}", f"the text searched for escapes (`{fed_back[0]}`) is rebuilt inside the scanning loop: "
+                             "what one step decoded is searched again by the next (an escaped backslash followed by the digits of another escape is decoded twice)", model.loc(SCHEMA, fi.node)))
+        return
     ok = len(subs) == 1
     run.ob("U1-unescape-single-pass", ok, {"substitutions": len(subs)})
     if not ok:
